@@ -661,8 +661,19 @@ def rule_translation_corpus(rep: Report, repo: Repo):
 # ---------------------------------------------------------------------------
 
 
-def rule_runtime_support(rep: Report, repo: Repo):
+def rule_runtime_support(rep: Report, repo: Repo, compiler_helpers: bool = True):
+    """`compiler_helpers=False`: only the series.py part (sentinels, __contains__, _mask, default eval) -- what the properties
+    about BlockSeries and the Cauchy product themselves rest on; _zero_sum / _safe_divide belong to the generated code."""
     R = "E9.runtime"
+    loc = lambda n: repo.loc("algorithm_parsing", n)
+    from .resolve import env_at as _env_at, resolved as _resolved
+    from .sem import Scope as _Scope, canon as _canon, ctext as _ctext, inline as _inline, outcomes as _outcomes
+    if compiler_helpers:
+        _runtime_compiler_helpers(rep, repo, R)
+    _runtime_series_part(rep, repo, R)
+
+
+def _runtime_compiler_helpers(rep: Report, repo: Repo, R: str):
     loc = lambda n: repo.loc("algorithm_parsing", n)
     from .resolve import env_at as _env_at, resolved as _resolved
     from .sem import Scope as _Scope, canon as _canon, ctext as _ctext, inline as _inline, outcomes as _outcomes
@@ -709,6 +720,12 @@ def rule_runtime_support(rep: Report, repo: Repo):
     FALLBACK = (f"{n_} * (1 / {d_})", f"1 / {d_} * {n_}", f"{n_} * {d_} ** (-1)")
     ok = bool(vals) and vals[0] in QUOT and all(v in QUOT + FALLBACK for v in vals)
     rep.check(ok, R, "algorithm_parsing::_safe_divide returns numerator / denominator (or numerator * (1 / denominator))", str(vals), loc(f))
+
+
+def _runtime_series_part(rep: Report, repo: Repo, R: str):
+    loc = lambda n: repo.loc("algorithm_parsing", n)
+    from .resolve import env_at as _env_at, resolved as _resolved
+    from .sem import Scope as _Scope, canon as _canon, ctext as _ctext, inline as _inline, outcomes as _outcomes
     # sentinels (series.py)
     tree = repo.trees["series"]
     zero = [n for n in tree.body if isinstance(n, ast.ClassDef) and n.name == "Zero"]
